@@ -232,6 +232,46 @@ def mp4_free_before_other_after(d):
     return nd
 
 
+def _ext_header(d, a):
+    """the 8-byte header of atom a rewritten in the 64-bit extended-size form (16 bytes): returns the new header"""
+    return struct.pack(">I4sQ", 1, a["name"], a["size"] + 8)
+
+
+def mp4_udta64(d):
+    """tag-less file whose moov.udta gets a 64-bit extended-size header (moov must lie behind the media data, so that only
+    the sizes of moov and of the file change, no chunk offset)"""
+    atoms = W.mp4_atoms(d)
+    moov = [a for a in atoms if a["name"] == b"moov"]
+    if not moov or moov[0]["hdr"] != 8 or any(a["name"] == b"mdat" and a["off"] > moov[0]["off"] for a in atoms):
+        return None
+    moov = moov[0]
+    udta = [c for c in moov["children"] if c["name"] == b"udta"]
+    if not udta or udta[0]["hdr"] != 8 or any(c["name"] == b"meta" for c in udta[0]["children"] or []):
+        return None
+    u = udta[0]
+    nd = d[:u["off"]] + _ext_header(d, u) + d[u["off"] + 8:]
+    return nd[:moov["off"]] + struct.pack(">I", moov["size"] + 8) + nd[moov["off"] + 4:]
+
+
+def mp4_moov64_no_udta(d):
+    """tag-less file without udta whose moov has a 64-bit extended-size header (an empty trailing udta is dropped)"""
+    atoms = W.mp4_atoms(d)
+    moov = [a for a in atoms if a["name"] == b"moov"]
+    if not moov or moov[0]["hdr"] != 8 or any(a["name"] == b"mdat" and a["off"] > moov[0]["off"] for a in atoms):
+        return None
+    moov = moov[0]
+    ch = moov["children"]
+    body_end = moov["off"] + moov["size"]
+    if ch and ch[-1]["name"] == b"udta":
+        if ch[-1]["size"] != ch[-1]["hdr"]:
+            return None
+        body_end = ch[-1]["off"]
+    if any(c["name"] == b"udta" for c in ch[:-1]):
+        return None
+    body = d[moov["off"] + 8:body_end]
+    return d[:moov["off"]] + struct.pack(">I4sQ", 1, b"moov", len(body) + 16) + body + d[moov["off"] + moov["size"]:]
+
+
 def id3_unknown_frames(d):
     """a v2.4 tag with unknown frames (two sharing one id) in front of the audio of an ID3-prefixed file"""
     body = d
@@ -366,6 +406,15 @@ def extra_samples(kind, base):
                 if x:
                     out.append(("synth-mdat-both-sides+" + nm, x))
                     break
+            for fn, lab in ((mp4_udta64, "synth-udta-64bit-header+"), (mp4_moov64_no_udta, "synth-moov-64bit-no-udta+")):
+                for nm, dd in base:
+                    try:
+                        x = fn(dd) if W.mp4(dd)["tags"] is None else None
+                    except Exception:
+                        x = None
+                    if x:
+                        out.append((lab + nm, x))
+                        break
             for nm, dd in base:
                 x = mp4_free_before_other_after(dd)
                 if x:
